@@ -198,12 +198,19 @@ func runC13(r *ev.Run) {
 	r.Rule = "every index b-tree shape within bounds (T1 indexes with DESC/NOCASE/RTRIM columns, T2 WITHOUT ROWID table and its secondary index; entries in interior pages, duplicates across pages, spilled payloads) x every cut key {every prefix of every entry, last column replaced by neighbours (+-1, next float, case swap, trailing space, shorter/longer), below first, above last, one column longer than the records}: ScanMin = suffix, ScanEq = equal run, ScanRange over every ordered pair of cut keys = filtered slice of the same handle's full Scan, judged by the independent comparator; non-trivial = keys on multi-level trees"
 	r.Set("bounds", fmt.Sprintf("%+v", allBounds(r)))
 	for _, b := range allBounds(r) {
-		c13Shapes(r, b)
+		forIndexShapes(r, b, func(si *ShapeImage) { c13Image(r, si) })
 	}
+	// every index of the T1..T5 family (T5: the C11 value grid as indexed values) at the smallest page sizes
+	forIndexFamily(r, func(si *ShapeImage) {
+		if ps, _ := si.Desc["page_size"].(int); ps > 1024 && !r.Thorough() {
+			return
+		}
+		c13Image(r, si)
+	})
 }
 
-func c13Shapes(r *ev.Run, b shapeBounds) {
-	forIndexShapes(r, b, func(si *ShapeImage) {
+func c13Image(r *ev.Run, si *ShapeImage) {
+	func() {
 		_, d, _, err := vpager.OpenImage(si.Img.Bytes)
 		if err != nil {
 			r.Violation("C13:open", fmt.Sprintf("well-formed image refused: %v", err), si.Desc)
@@ -213,7 +220,7 @@ func c13Shapes(r *ev.Run, b shapeBounds) {
 		defer d.RUnlock()
 		for _, u := range indexesOf(si) {
 			u := u
-			if u.name != si.Object && !(si.Object == "t2" && u.name == "t2_c") {
+			if si.Object != "*" && u.name != si.Object && !(si.Object == "t2" && u.name == "t2_c") {
 				// indexes with default shape are covered when they are the enumerated object
 				continue
 			}
@@ -325,7 +332,7 @@ func c13Shapes(r *ev.Run, b shapeBounds) {
 				}
 			}
 		}
-	})
+	}()
 }
 
 func diffClass(got, want [][]interface{}) string {
